@@ -24,7 +24,7 @@ def c20_epilogue(steps, i):
     fails after the parameter change was executed), the end of its voting period, a restart, and Ethereum
     transactions (contract creation included) on the restarted and on the continuous node."""
     np = sum(1 for st in steps if st.get("ev") == "block" for t in st.get("txs", [])
-             if t.get("k") in ("gov_submit", "gov_submit2", "gov_toggle", "gov_evm_params", "gov_coinomics", "gov_erc20_params"))
+             if t.get("k") in ("gov_submit", "gov_submit2", "gov_toggle", "gov_evm_params", "gov_coinomics", "gov_erc20_params", "gov_params"))
     pid = np + 1
     blk = lambda dt, txs: {"ev": "block", "dt": dt, "proposer": 0, "absent": [], "evidence": [], "txs": txs}
     votes = [{"k": "gov_vote", "from": "v%d" % v, "id": pid, "opt": "yes"} for v in (1, 2, 3)]
@@ -55,6 +55,46 @@ def c20_epilogue(steps, i):
             blk(5000, [{"k": "pc_delegate", "from": "a2", "val": 1, "amt": "1000"}, {"k": "pc_setwd", "from": "a3", "to": "a4"},
                        {"k": "deploy", "from": "a5", "slots": 2}]),
             blk(5000, [{"k": "pc_withdraw", "from": "a2", "val": 1}]),
+        ]
+    if i % 6 == 4:
+        # the parameters of x/erc20 (the EVM hook that converts ERC20 transfers to the module address back into coins)
+        # are switched off before the restart and on again after it; coins are converted into the ERC20 of a
+        # registered pair for receivers that hold it and for receivers that do not, before and after the restart,
+        # and the tokens are sent to the module address and converted back
+        votes2 = [dict(v, id=pid + 1) for v in votes]
+        return [
+            blk(5000, [{"k": "convert_erc20", "from": "a3", "to": "a3", "id": 2, "amt": "1000000"},
+                       {"k": "convert_coin", "from": "a3", "to": "a3", "id": 2, "amt": "1000"},
+                       {"k": "gov_params", "from": "a2", "which": "erc20_hook", "enable": False}] + votes),
+            blk(25000, [{"k": "send", "from": "a1", "to": "a2", "amt": "1"}, {"k": "erc20_xfer", "from": "a3", "to": "mod:erc20", "id": 2, "amt": "10"}]),
+            {"ev": "restart"},
+            blk(5000, [{"k": "convert_coin", "from": "a3", "to": "a3", "id": 2, "amt": "1000"},
+                       {"k": "convert_coin", "from": "a3", "to": "a5", "id": 2, "amt": "5000"},
+                       {"k": "gov_params", "from": "a3", "which": "erc20_hook", "enable": True}] + votes2),
+            blk(25000, [{"k": "convert_coin", "from": "a3", "to": "a6", "id": 2, "amt": "700"},
+                        {"k": "erc20_xfer", "from": "a3", "to": "a4", "id": 2, "amt": "300"},
+                        {"k": "erc20_xfer", "from": "a3", "to": "mod:erc20", "id": 2, "amt": "20"}]),
+            blk(5000, [{"k": "erc20_xfer", "from": "a3", "to": "mod:erc20", "id": 2, "amt": "500"},
+                       {"k": "convert_erc20", "from": "a5", "to": "a5", "id": 2, "amt": "1000"},
+                       {"k": "erc20_xfer", "from": "a4", "to": "mod:erc20", "id": 2, "amt": "100"}]),
+            {"ev": "restart"},
+            blk(5000, [{"k": "convert_erc20", "from": "a6", "to": "a2", "id": 2, "amt": "200"},
+                       {"k": "convert_coin", "from": "a3", "to": "a1", "id": 2, "amt": "900"}]),
+        ]
+    if i % 6 == 1:
+        # "right after blocks that change parameters": a module's parameters are moved to legal edge values
+        # (zero, empty, the other flag), the node restarts after the block in which the proposal passes
+        edges = ["fm_mult0", "fm_nobasefee", "distr_zero", "slash_zero", "fm_mult1", "staking_edge", "evm_channels", "gov_flags",
+                 "fm_minprice", "lv_edge", "coin_coeff0", "fm_elasticity1", "lv_off"]
+        return [
+            blk(5000, [{"k": "gov_params", "from": "a1", "which": edges[(i // 6) % len(edges)], "enable": False}] + votes),
+            blk(25000, [{"k": "send", "from": "a1", "to": "a2", "amt": "1"}, {"k": "eth_send", "from": "a3", "to": "a4", "amt": "1000", "extraGas": 5000}]),
+            {"ev": "restart"},
+            blk(5000, [{"k": "deploy", "from": "a2", "slots": 2}, {"k": "eth_send", "from": "a3", "to": "a4", "amt": "1000", "extraGas": 5000},
+                       {"k": "delegate", "from": "a5", "val": 1, "amt": "1000"}, {"k": "set_withdraw", "from": "a6", "to": "a1"},
+                       {"k": "liquidate", "from": "vx2", "to": "a2", "amt": "1000000000000000000000"}]),
+            [dict(blk(5000, [{"k": "pc_delegate", "from": "a2", "val": 1, "amt": "1000"}, {"k": "withdraw", "from": "a5", "val": 1},
+                       {"k": "send", "from": "a4", "to": "a1", "amt": "5"}]), absent=[2], evidence=[2])][0],
         ]
     return [
         blk(5000, [{"k": "gov_evm_params", "from": "a1", "fail": i % 2 == 0}] + votes),
